@@ -48,6 +48,18 @@ def search(chk, broken):
     rng = chk.rng
     n = 40 if (chk.tier == 'quick' and not broken) else 3000
     evals = 0
+    # regression corpus: minimized past failures run first (tail wind: one step jumps over [range, range + min_step])
+    for bc, mv, wv, R in [(0.26592724361031905, 1198.2945371113894, 32.089245104178815, 300.0),
+                          (0.272190906526506, 1085.64933697706, 76.5795857067341, 567.564902203866),
+                          (0.5573974201669962, 2240.5223099489885, 28.592721495112276, 1000.0)]:
+        shot = pbc.Shot(pbc.Weapon(2, 0), pbc.Ammo(pbc.DragModel(bc, pbc.TableG7), U.FPS(mv)), winds=[pbc.Wind(U.MPH(wv), U.Degree(0))])
+        rows = pbc.Calculator().fire(shot, U.Foot(R), U.Foot(R / 10)).trajectory
+        evals += 1
+        if len(rows) != 11:
+            chk.failures.append(Failure('missing-row:tail-wind', f'{len(rows)} rows for range {R} ft step {R / 10} ft with a {wv:.0f} mph tail wind: the row at the range is missing',
+                                        {'op': 'rows', 'bc': bc, 'mv_fps': mv, 'wind_mph': wv, 'range_ft': R,
+                                         'python': f'from py_ballisticcalc import *; len(Calculator().fire(Shot(Weapon(2,0), Ammo(DragModel({bc!r}, TableG7), Unit.FPS({mv!r})), '
+                                                   f'winds=[Wind(Unit.MPH({wv!r}), Unit.Degree(0))]), Unit.Foot({R!r}), Unit.Foot({R / 10!r})).trajectory)'}))
     for it in range(n):
         cfg = sg.gen_config(rng, 0.7)
         for k in ('cMinimumVelocity', 'cMaximumDrop', 'cMinimumAltitude'):
